@@ -35,12 +35,12 @@ CONSTANTS Dim,        \* 1 or 2
 Coords(lo, hi) == IF Dim = 1 THEN {<<x, 0, 0>> : x \in lo..hi}
                   ELSE {<<x, y, 0>> : x \in lo..hi, y \in lo..hi}
 PartSet == {[x |-> c[1], y |-> c[2], z |-> c[3], h |-> h, m |-> m,
-             rho |-> r, f |-> f] :
+             rho |-> r, f |-> f, g |-> 0] :
                c \in Coords(0, L), h \in HVals, m \in MVals, r \in RVals,
                f \in FVs}
 Contents == UNION {[1..n -> PartSet] : n \in MinN..MaxN}
 ArrNames == <<"a", "b", "c">>
-SrcSet == {[k \in 1..NArr |-> [name |-> ArrNames[k], p |-> cs[k]]] :
+SrcSet == {[k \in 1..NArr |-> [name |-> ArrNames[k], props |-> <<"f">>, p |-> cs[k]]] :
               cs \in [1..NArr -> Contents]}
 Pt(c) == [x |-> c[1], y |-> c[2], z |-> c[3], h |-> 0]
 \* every lattice point within reach of the sources
